@@ -25,6 +25,7 @@ struct FO { u8* a; u8 b; };
 struct FO8 { u64* a; };
 union U4 { 1: u8 a; 2: u16 b; };
 union U8 { 0: u64 a; 3: u8 b; 7: F16 c; };
+union U12 { 0: u64 a; 4: F12 b; };
 struct D1 { u8 a<>; };
 struct D8 { u64 a<>; u8 b; };
 struct DD { D1 d; u16 t; };
@@ -50,6 +51,7 @@ typedef F64 TF64;
         t['FO8'] = W.Struct('FO8', [W.Field('a', W.Optional(u64))])
         t['U4'] = W.Union('U4', [W.Arm(1, 'a', u8), W.Arm(2, 'b', u16)])
         t['U8'] = W.Union('U8', [W.Arm(0, 'a', u64), W.Arm(3, 'b', u8), W.Arm(7, 'c', t['F16'])])
+        t['U12'] = W.Union('U12', [W.Arm(0, 'a', u64), W.Arm(4, 'b', t['F12'])])
         t['D1'] = W.Struct('D1', [W.Field('num_of_a', u32, ['a']), W.Field('a', W.Array(W.DYNAMIC, 0, u8, 'num_of_a'))])
         t['D8'] = W.Struct('D8', [W.Field('num_of_a', u32, ['a']), W.Field('a', W.Array(W.DYNAMIC, 0, u64, 'num_of_a')),
                                   W.Field('b', u8)])
@@ -63,7 +65,7 @@ typedef F64 TF64;
 POOL = Pool()
 
 FIXED_TYPES = ['u8', 'u16', 'u32', 'u64', 'i8', 'i16', 'i32', 'i64', 'E', 'E1', 'F8', 'F16', 'F64', 'F12', 'FO', 'FO8',
-               'U4', 'U8', 'TU16', 'TF64']
+               'U4', 'U8', 'U12', 'TU16', 'TF64']
 DYN_TYPES = ['D1', 'D8', 'DD']
 UNL_TYPES = ['G1', 'G16']
 FLOAT_TYPES = ['r32', 'r64']
@@ -96,11 +98,19 @@ def last_only_kinds():
     return kinds
 
 
-def build_struct(name, kinds):
+def build_struct(name, kinds, distinct_sizers=False):
     """kinds: list of (kind, type, n) -> (text, wire.Struct).  ext arrays share one u8 sizer 'sz'
-    placed first (so an over-long array cannot be encoded: values keep within 255)."""
+    placed first (so an over-long array cannot be encoded: values keep within 255); with
+    distinct_sizers every ext array gets its own sizer sz<i> (what the C++ full generator accepts)."""
     lines, fields = [], []
-    if any(k[0] in ('ext', 'bext') for k in kinds):
+    szname = {}
+    if distinct_sizers:
+        for i, k in enumerate(kinds):
+            if k[0] in ('ext', 'bext'):
+                szname[i] = 'sz%d' % i
+                lines.append('u8 sz%d;' % i)
+                fields.append(W.Field('sz%d' % i, W.Int(1, False), ['m%d' % i]))
+    elif any(k[0] in ('ext', 'bext') for k in kinds):
         ext_names = ['m%d' % i for i, k in enumerate(kinds) if k[0] in ('ext', 'bext')]
         lines.append('u8 sz;')
         fields.append(W.Field('sz', W.Int(1, False), ext_names))
@@ -122,7 +132,8 @@ def build_struct(name, kinds):
             fields.append(W.Field('num_of_' + m, u32, [m]))
             fields.append(W.Field(m, W.Array(W.LIMITED, n, ty, 'num_of_' + m)))
         elif kind == 'ext':
-            lines.append('%s %s<@sz>;' % (tt, m)); fields.append(W.Field(m, W.Array(W.DYNAMIC, 0, ty, 'sz')))
+            sz = szname.get(i, 'sz')
+            lines.append('%s %s<@%s>;' % (tt, m, sz)); fields.append(W.Field(m, W.Array(W.DYNAMIC, 0, ty, sz)))
         elif kind == 'greedy':
             lines.append('%s %s<...>;' % (tt, m)); fields.append(W.Field(m, W.Array(W.GREEDY, 0, ty)))
         elif kind == 'optional':
@@ -138,7 +149,8 @@ def build_struct(name, kinds):
             fields.append(W.Field('num_of_' + m, u32, [m]))
             fields.append(W.Field(m, W.Bytes(W.LIMITED, n, 'num_of_' + m)))
         elif kind == 'bext':
-            lines.append('bytes %s<@sz>;' % m); fields.append(W.Field(m, W.Bytes(W.DYNAMIC, 0, 'sz')))
+            sz = szname.get(i, 'sz')
+            lines.append('bytes %s<@%s>;' % (m, sz)); fields.append(W.Field(m, W.Bytes(W.DYNAMIC, 0, sz)))
         elif kind == 'bgreedy':
             lines.append('bytes %s<...>;' % m); fields.append(W.Field(m, W.Bytes(W.GREEDY, 0)))
         else:
@@ -166,7 +178,7 @@ def all_unions(prefix='UA'):
     return out
 
 
-def sample_structs(rng, count, max_members=4, with_floats=False, prefix='S'):
+def sample_structs(rng, count, max_members=4, with_floats=False, prefix='S', distinct_sizers=False):
     """random structs; the last member may be of an unlimited kind"""
     mk, lk = member_kinds(with_floats), last_only_kinds()
     out = []
@@ -175,11 +187,11 @@ def sample_structs(rng, count, max_members=4, with_floats=False, prefix='S'):
         ks = [rng.choice(mk) for _ in range(n)]
         if rng.random() < 0.25:
             ks[-1] = rng.choice(lk)
-        out.append(build_struct('%s%d' % (prefix, i), ks))
+        out.append(build_struct('%s%d' % (prefix, i), ks, distinct_sizers))
     return out
 
 
-def all_structs(max_members, kinds=None, last_kinds=None, prefix='X'):
+def all_structs(max_members, kinds=None, last_kinds=None, prefix='X', distinct_sizers=False):
     """exhaustive over a (reduced) kind list"""
     import itertools
     kinds = kinds or REDUCED_KINDS
@@ -188,7 +200,7 @@ def all_structs(max_members, kinds=None, last_kinds=None, prefix='X'):
     for n in range(1, max_members + 1):
         for combo in itertools.product(kinds, repeat=n - 1):
             for last in list(kinds) + list(last_kinds):
-                out.append(build_struct('%s%d' % (prefix, idx), list(combo) + [last]))
+                out.append(build_struct('%s%d' % (prefix, idx), list(combo) + [last], distinct_sizers))
                 idx += 1
     return out
 
